@@ -38,6 +38,41 @@ SMALL = [
 ]
 
 
+# reconnections that need several attempts: 'fails' attempts are refused by
+# the transport, then 'rej' attempts get their namespace rejected, then one
+# succeeds
+SMALL += [
+    {'prod': [0], 'recv': [5], 'net': 'reconnect', 'emit': True, 'fails': 1},
+    {'prod': [0], 'recv': [5], 'net': 'reconnect', 'emit': True, 'rej': 1},
+    {'prod': [1], 'recv': [5, 5], 'net': 'reconnect', 'emit': False,
+     'fails': 1, 'rej': 1},
+]
+
+
+class FlakyServer(E.ServerScript):
+    """Accepts every CONNECT except on the attempts listed in `reject`."""
+
+    def __init__(self):
+        super().__init__()
+        self.reject = set()
+
+    def on_packet(self, h, pkt):
+        if pkt['type'] == R.CONNECT and len(h.attempts) in self.reject:
+            h.deliver(R.CONNECT_ERROR, pkt['nsp'], None,
+                      {'message': 'not now'})
+            return
+        super().on_packet(h, pkt)
+
+
+def plan_attempts(h, spec):
+    """To be called right before the loss."""
+    fails, rej = spec.get('fails', 0), spec.get('rej', 0)
+    if fails or rej:
+        h.plan = [('fail', 'refused')] * fails + ['ok'] * (rej + 1)
+        first = len(h.attempts) + 1 + fails
+        h.script.reject = set(range(first, first + rej))
+
+
 TOOL = 4
 
 
@@ -90,7 +125,7 @@ class SyncScenario:
                                             [None, 0.05, 0.2])
                                             if rng is not None else None))
         sched = self.sched
-        self.h = E.SyncClientHarness(client_kw={
+        self.h = E.SyncClientHarness(script=FlakyServer(), client_kw={
             'reconnection': spec['net'] == 'reconnect',
             'reconnection_delay': 1, 'randomization_factor': 0})
         h = self.h
@@ -169,6 +204,7 @@ class SyncScenario:
     def network(self):
         h = self.h
         self.lost = True
+        plan_attempts(h, self.spec)
         h.lose(pump=False)
         if self.spec['net'] == 'reconnect':
             h.pump()          # the reconnect task, in this (its) thread
@@ -318,7 +354,7 @@ class AsyncScenario:
     def __init__(self, ctx, spec, choices, rng):
         import socketio
         self.ctx, self.spec = ctx, spec
-        self.h = E.AsyncClientHarness(client_kw={
+        self.h = E.AsyncClientHarness(script=FlakyServer(), client_kw={
             'reconnection': spec['net'] == 'reconnect',
             'reconnection_delay': 1, 'randomization_factor': 0})
         h = self.h
@@ -383,6 +419,7 @@ class AsyncScenario:
     async def network(self):
         await self.gate.pause('loss')
         self.lost = True
+        plan_attempts(self.h, self.spec)
         await self.h.a_lose()
 
     async def emitter(self):
@@ -541,9 +578,10 @@ def run(ctx):
     ctx.require('application_disconnect_scenarios', 10)
     ctx.require('non_blocking_poll_scenarios', 10)
     ctx.require('calls_across_a_reconnection', 10)
+    ctx.require('reconnections_needing_several_attempts', 10)
     ctx.extra['scenarios'] = {}
     limit = 1200 if ctx.tier == 'quick' else 40000
-    order = [0, 5, 8, 1, 6, 9, 2, 7, 10, 3, 4]
+    order = [0, 5, 8, 11, 1, 6, 9, 12, 2, 7, 10, 13, 3, 4]
     k = ctx.shard * 10**6
     # breadth first: a few schedules of every small scenario (both
     # implementations) before the deep searches, so that a slow machine does
@@ -982,6 +1020,10 @@ def random_batch(ctx, k, n):
         spec = {'prod': [rng.randint(0, 3) for _ in range(rng.choice(
             [1, 2]))], 'net': rng.choice([None, None, 'final', 'reconnect']),
             'emit': rng.random() < 0.3}
+        if spec['net'] == 'reconnect' and rng.random() < 0.5:
+            spec['fails'] = rng.choice([0, 1, 2])
+            spec['rej'] = rng.choice([0, 1]) if spec['fails'] else 1
+            ctx.count('reconnections_needing_several_attempts')
         total = sum(spec['prod'])
         spec['recv'] = [rng.choice([5, 5, None]) if j < total and
                         spec['net'] is None else 5
